@@ -5,7 +5,7 @@ CONSTANTS
   GuardCombine = TRUE
   GuardControl = TRUE
   SafeDecode = TRUE
-  GuardEndpoint = TRUE
+  GuardEndpoint = FALSE
   NoSigpipe = TRUE
   MaxHist = 4
 INVARIANTS C35_NoThrow
